@@ -3,7 +3,7 @@
     what the implementation returned.  [*_mismatch]: model vs implementation.
     [*_violates]: the property acceptor rejects what the implementation did. *)
 From Coq Require Import Uint63.
-From WM Require Import Base.Prelude Message.Model Value.Model Value.Codec Value.Json Value.Reuse Value.Scan.
+From WM Require Import Base.Prelude Message.Model Value.Model Value.Codec Value.Json Value.Reuse Value.Scan Value.Sorted.
 
 (** long byte strings arrive packed, 7 bytes per primitive 63-bit integer (little endian), the
     last word holding [tail] bytes: one cheap token per 7 bytes for Coq's parser.  Only the
@@ -287,7 +287,7 @@ Definition frames_agree (c : jw_case) : bool :=
                     end) (jw_frames c).
 Definition jw_mismatch (c : jw_case) : bool :=
   (match jw_wrap c with
-   | Some (d, m) => negb (option_eqb bytes_eqb (jenc_env (env_of d m)) (jw_p c))
+   | Some (d, m) => negb (option_eqb bytes_eqb (jenc_sorted (env_of d m)) (jw_p c))   (* metadata arrives UNsorted; the model sorts as Go does *)
                     || negb (res_eqb pair_eqb (unwrap (jdec_env unframe_std) (Msg [] (jw_p c) (Some []))) (jw_got c))
    | None => false
    end)
